@@ -42,8 +42,10 @@ def to_argv(mp, a):
 def run_case(kind, inp):
     mp, a = inp['mp'], inp['args']; spa = mp == 'spa'
     r = genutil.run_generator(to_argv(mp, a), inp['seed'])
-    if r['status'] != 'ok': return None        # acceptance of argument vectors is C15's obligation
     F = 'generate_instances'
+    if r['status'] == 'raise':               # an accepted argument vector must lead to files, not to an exception (a clean refusal is exit 2: C15)
+        return dict(expected='the requested files', observed=r['error'], function=F, what='raise')
+    if r['status'] != 'ok': return None        # acceptance of argument vectors is C15's obligation
     n1 = a['n1']; n2 = a['n1'] if mp == 'sm' else a['n2']; n3 = a.get('n3', 0); two = a.get('twopl', False)
     uq = n1 if mp == 'sm' else a['uq']; lq = a.get('lq', 0)
     want = sorted('%d.txt' % i for i in range(a['numinst']))
